@@ -401,7 +401,7 @@ NameCase(i) == [pos |-> NamePositions[((i - 1) % Len(NamePositions)) + 1], nm |-
 (* placeholders the harness fills in with the import paths of its workspace. *)
 ImpKinds == << "struct", "message", "enum", "union" >>
 ImpDep == << Co("string", "go_package", "\"@DEPPKG@\""),
-             St("TB", << F("v", P("int64")), F("w", P("string")) >>),
+             St("TB", << F("v", P("int64")), F("w", P("string")), F("d", P("date")), F("g", P("guid")) >>),   \* (types that make the GENERATED imported package import Go packages)
              Ms("MB", << FI(1, "t", R("TB")), FI(2, "n", P("int32")) >>),
              En("EB", "uint16", << Mem("X", "1", <<1,0>>), Mem("Y", "2", <<2,0>>) >>),
              Un("UB", << Br(1, St("UBA", << F("a", P("int32")) >>)), Br(2, Ms("UBM", << FI(1, "s", P("string")) >>)) >>) >>
@@ -414,11 +414,24 @@ ImpRoot(k, w, h) ==
   (CASE h = "struct" -> << St("Holder", << F("pre", P("bool")), F("x", t), F("post", P("byte")) >>) >>
      [] h = "message" -> << Ms("Holder", << FI(1, "pre", P("bool")), FI(2, "x", t), FI(3, "post", P("byte")) >>) >>
      [] h = "branch" -> << Un("Holder", << Br(1, St("HA", << F("x", t) >>)), Br(2, Ms("HB", << FI(1, "x", t) >>)) >>) >>)
-NImpUse == Len(ImpKinds) * 5 * Len(ImpHolders)
-ImpCase(i) == [k |-> ImpKinds[((i - 1) % 4) + 1], w |-> (((i - 1) \div 4) % 5) + 1, h |-> ImpHolders[((i - 1) \div 20) + 1]]
-ImpItems(i) == ImpRoot(ImpCase(i).k, ImpCase(i).w, ImpCase(i).h)
+\* a second imported file whose package name has the first one's as a prefix; the root uses only it ("two"), or both
+ImpDep2 == << Co("string", "go_package", "\"@DEP2PKG@\""), St("TX", << F("q", P("int32")) >>) >>
+ImpRoot2(w, h, both) ==
+  LET t == ImpWrap(w, R("TX")) IN
+  << [k |-> "import", path |-> "./dep.bop"], [k |-> "import", path |-> "./dep2.bop"], Co("string", "go_package", "\"@ROOTPKG@\"") >> \o
+  (IF h = "struct" THEN << St("Holder", << F("x", t) >> \o (IF both THEN << F("y", R("TB")) >> ELSE <<>>)) >>
+   ELSE << Ms("Holder", << FI(1, "x", t) >> \o (IF both THEN << FI(2, "y", R("MB")) >> ELSE <<>>)) >>)
+NImpOne == Len(ImpKinds) * 5 * Len(ImpHolders)
+NImpUse == NImpOne + 5 * 2 * 2
+ImpCase(i) == IF i <= NImpOne
+              THEN [k |-> ImpKinds[((i - 1) % 4) + 1], w |-> (((i - 1) \div 4) % 5) + 1, h |-> ImpHolders[((i - 1) \div 20) + 1], deps |-> "one"]
+              ELSE LET q == i - NImpOne - 1 IN
+                   [k |-> "struct", w |-> (q % 5) + 1, h |-> ImpHolders[((q \div 5) % 2) + 1], deps |-> IF q \div 10 = 0 THEN "two" ELSE "both"]
+ImpItems(i) == IF ImpCase(i).deps = "one" THEN ImpRoot(ImpCase(i).k, ImpCase(i).w, ImpCase(i).h)
+               ELSE ImpRoot2(ImpCase(i).w, ImpCase(i).h, ImpCase(i).deps = "both")
 \* the schema the two files denote together (imports resolved) is well-formed
-ImpInlined(i) == SelectSeq(ImpDep, LAMBDA d : d.k # "const") \o SelectSeq(ImpItems(i), LAMBDA d : d.k \notin {"import", "const"})
+ImpInlined(i) == SelectSeq(ImpDep, LAMBDA d : d.k # "const") \o (IF ImpCase(i).deps = "one" THEN <<>> ELSE SelectSeq(ImpDep2, LAMBDA d : d.k # "const"))
+                 \o SelectSeq(ImpItems(i), LAMBDA d : d.k \notin {"import", "const"})
 
 -----------------------------------------------------------------------------
 Init == part = "" /\ ci = 0
@@ -438,6 +451,8 @@ Class == CASE part = "base" -> "" [] part = "inject" -> Injections[ci].class [] 
 Site  == CASE part = "base" -> "" [] part = "inject" -> Injections[ci].site [] part = "sites" -> SiteInjections[ci].site
            [] part = "names" -> NameCase(ci).nm.n \o " as " \o NameCase(ci).pos
            [] part = "impuse" -> "imported " \o ImpCase(ci).k \o " under wrapper " \o ToString(ImpCase(ci).w) \o " in a " \o ImpCase(ci).h
+                                \o (CASE ImpCase(ci).deps = "one" -> "" [] ImpCase(ci).deps = "two" -> " (from the second of two imported files, the first unused)"
+                                       [] OTHER -> " (two imported files, both used)")
            [] part = "graph" -> ToString(GC.n) \o " structs, graph " \o ToString(GC.g) \o ", edges " \o GC.kind
 \* the specification's verdict; edges through arrays/maps are left open by the property's wording
 Expect == IF part = "impuse" THEN (IF Violated(ImpInlined(ci)) = "" THEN "accept" ELSE "reject")
@@ -459,5 +474,7 @@ Export == IsCase => PrintT("@@PCASE " \o ToJson([part |-> part, ci |-> ci, token
                                                   extra |-> [class |-> Class, site |-> Site, where |-> Where, expect |-> Expect, name |-> NameOf,
                                                              dep |-> IF part = "impuse" THEN Tokens(ImpDep) ELSE <<>>,
                                                              \* combined mode inlines the imported file: it must not define go_package a second time
-                                                             depc |-> IF part = "impuse" THEN Tokens(Tail(ImpDep)) ELSE <<>>]]))
+                                                             depc |-> IF part = "impuse" THEN Tokens(Tail(ImpDep)) ELSE <<>>,
+                                                             dep2 |-> IF part = "impuse" /\ ImpCase(ci).deps # "one" THEN Tokens(ImpDep2) ELSE <<>>,
+                                                             dep2c |-> IF part = "impuse" /\ ImpCase(ci).deps # "one" THEN Tokens(Tail(ImpDep2)) ELSE <<>>]]))
 =============================================================================
